@@ -294,6 +294,10 @@ def is_f7(sc, seg, ln):
     if len(prev) < 2:
         return False
     tprev, tfirst = prev[-1]['t'], prev[0]['t']
+    # cause side: it is the HEAD that the stale timer re-sends: data that an ACK which had arrived already covers wholly is
+    # a different defect
+    if any(x['ev'] == 'arrive' and x.get('to') == e and 'A' in x.get('flags', '') and x.get('ack', -1) >= seq + ev['len'] for x in seg[:ln]):
+        return False
     acks = [x for x in seg[:ln] if x['ev'] == 'arrive' and x.get('to') == e and x.get('ack') == seq and x.get('len', 0) == 0 and tfirst <= x['t'] <= tprev]
     return len(acks) >= 2 and ev['t'] - tprev < 200000
 
